@@ -699,10 +699,8 @@ class DMSAngle(object):
         :return: HP Notation (DDD.MMSSSS)
         :rtype: float
         """
-        if self.positive:
-            return self.degree + (self.minute / 100) + (self.second / 10000)
-        else:
-            return -(self.degree + (self.minute / 100) + (self.second / 10000))
+        # via dec2hp so that seconds such as 59.99999999999 carry into the minute
+        return dec2hp(self.dec())
 
     def hpa(self):
         """
@@ -901,11 +899,8 @@ class DDMAngle(object):
         :return: HP Notation (DDD.MMSSSS)
         :rtype: float
         """
-        minute_int, second = divmod(self.minute, 1)
-        if self.positive:
-            return self.degree + (minute_int / 100) + (second * 0.006)
-        else:
-            return -(self.degree + (minute_int / 100) + (second * 0.006))
+        # via dec2hp so that minute fractions such as 0.9999999999999 carry over
+        return dec2hp(self.dec())
 
     def hpa(self):
         """
